@@ -62,6 +62,8 @@ impl MScriptFileBuilder {
     }
 
     pub fn build(self) -> Rc<MScriptFile> {
+        #[cfg(mscript_verif)]
+        self.building.verif_dump("memory");
         self.building
     }
 }
@@ -135,7 +137,22 @@ impl MScriptFile {
             *borrow = Some(functions);
         }
 
+        #[cfg(mscript_verif)]
+        new_uninit.verif_dump("disk");
+
         Ok(new_uninit)
+    }
+
+    #[cfg(mscript_verif)]
+    fn verif_dump(&self, origin: &str) {
+        if let Some(functions) = self.get_functions_ref() {
+            let mut names: Vec<&String> = functions.map.keys().collect();
+            names.sort();
+            for name in names {
+                let function = &functions.map[name];
+                crate::verif::dump_function(&self.path, origin, name, function.instructions());
+            }
+        }
     }
 
     /// Searches for a function given its name.
